@@ -275,6 +275,15 @@ def run_unit(name, tier='quick', seed=0):
             if rr.status != 'ok' or set(rr.failed) != base_failed:
                 r.status = 'undecided'
                 r.reason = 'unstable: result differs under %s (%s vs %s)' % (' '.join(v), sorted(rr.failed), sorted(base_failed))
+        # second solver (recorded only: the installed cvc5 is 1.0.3, Verus expects 1.1.2, so a
+        # disagreement is reported in the evidence but never turns into a verdict)
+        try:
+            cv = run_verus(path, ['-V', 'cvc5', '-V', 'no-solver-version-check', '--rlimit', '30'], timeout=600)
+            vr = (cv['json'] or {}).get('verification-results', {})
+            r.cvc5 = {'verified': vr.get('verified'), 'errors': vr.get('errors'), 'wall_s': round(cv['wall'], 2),
+                      'note': 'cvc5 1.0.3 with -V no-solver-version-check; informational cross-check'}
+        except Exception as e:
+            r.cvc5 = {'error': str(e)[:200]}
     r.wall = time.time() - t0
     return r
 
